@@ -191,6 +191,9 @@ TS(a) == IF a.tsp THEN <<a.ff, a.hosts, a.time>> ELSE <<FALSE, "", "0">>
 EqLeg(a, b)  == /\ a.ver = b.ver /\ a.user = b.user /\ a.host = b.host
                 /\ a.hardKey = b.hardKey /\ a.touch = b.touch /\ TS(a) = TS(b)
 EqJson(a, b) == /\ EqLeg(a, b) /\ a.ifVer = b.ifVer /\ a.ca = b.ca /\ a.sig = b.sig /\ S(a.exts) = S(b.exts)
+\* a hand-written JSON text (not encoder output): the encoder never writes JSON with an interface version below 7, so what
+\* such a text (or one without ifVer) reports as interface version is not fixed by the statement; everything else is copied
+EqJsonText(a, b) == /\ EqLeg(a, b) /\ (a.ifVer >= 7 => a.ifVer = b.ifVer) /\ a.ca = b.ca /\ a.sig = b.sig /\ S(a.exts) = S(b.exts)
 D15(ok, pan, b) == [ok |-> ok, pan |-> pan, b |-> b]
 
 \* how a legacy boolean / integer value must come back (unconstrained where the statement is silent)
@@ -234,7 +237,7 @@ C15_Decode(e) ==
   (e.cmd.jk = "object" /\ e.cmd.dec) =>
      /\ ~e.res.pan
      /\ e.res.ok = Req(e.cmd.ja)                            \* same required-field check as the encoder
-     /\ e.res.ok => EqJson(e.cmd.ja, e.res.b)               \* the JSON reading, never the legacy one
+     /\ e.res.ok => EqJsonText(e.cmd.ja, e.res.b)           \* the JSON reading, never the legacy one
 C15_Ev(e) == IF e.op = "rt" THEN C15_Rt(e) ELSE IF e.op = "declegacy" THEN C15_DecLegacy(e)
              ELSE IF e.op = "decode" THEN C15_Decode(e) ELSE TRUE
 
@@ -283,7 +286,8 @@ DesignDecode(c) ==
 C15_Strict(e) ==
   IF e.op = "rt" THEN e.dec.ok = (Req(e.a) /\ (Fmt(e.a) = "json" \/ e.clean)) /\ Xok(e, e.dec.ok) /\ e.same
   ELSE IF e.op = "declegacy" THEN LET v == LegView(e.atoms) IN ~e.res.pan /\ e.res.ok = (v.hasreq /\ v.nat = 1) /\ Xok(e, e.res.ok)
-  ELSE IF e.op = "decode" THEN ~e.res.pan /\ e.res.ok = DesignDecode(e.cmd).ok /\ Xok(e, e.res.ok)
+  ELSE IF e.op = "decode" THEN /\ ~e.res.pan /\ e.res.ok = DesignDecode(e.cmd).ok /\ Xok(e, e.res.ok)
+                               /\ (e.cmd.jk = "object" /\ e.cmd.dec /\ e.res.ok) => e.cmd.ja.ifVer = e.res.b.ifVer
   ELSE TRUE
 
 ---------------------------------------------------------------------------
